@@ -44,8 +44,12 @@ TEXT = dict(
           "completed flush has exactly its flushed metadata and bytes (C05_os = the full statement), and in library-sync mode a "
           "region not overwritten in place is as at the last completed sync pair or as when the interrupted one began, never a "
           "mixture (C05_lib). The extracted monitor decides every trace the instrumented implementation produces; crash images are "
-          "also materialised as real files and opened with the real Database::open. Proving that every history of the allocator "
-          "model yields an accepted trace (C05_model_disciplined) is in progress; until then histories are covered per observed trace."),
+          "also materialised as real files and opened with the real Database::open. Rawdb/AllocEvents.v gives the allocator MODEL its own "
+          "durability trace (compared token by token with the real trace of every generated history), and "
+          "C05_model_disciplined_partial / C05_all_histories_partial prove that every model history made of create, truncate, "
+          "rename, remove, handle drop, set_min_len and Database::flush in every outcome (and of refused writes / retain / region "
+          "flush / compact) is accepted by the monitor, hence crash-safe at every point; the successful paths of the write family, "
+          "retain, Region::flush and compact are covered per observed trace only (C05_model_disciplined_full is stated, not yet proved)."),
     note=("Trusted: Coq kernel; the tap call sites; the harness's reconstruction of page versions; the property's own fault model "
           "(atomic 4 KiB pages, ordered file length). Histories are proved safe per trace (monitor), not yet for all histories "
           "of the allocator model; the kernel's actual write-back is assumed, not exhibited."),
